@@ -137,6 +137,20 @@ func opsTable() {
 		type T struct{ x interface{} }
 		return btoa(T{I(1)} == T{I(1)}) + btoa(T{I(1)} == T{"1"})
 	})
+	// the same reference on both sides must panic too (no identity fast path)
+	try("cmp-same-slice", func() string { var a interface{} = []I{1}; c := a; return btoa(a == c) })
+	try("cmp-same-map", func() string { var a interface{} = map[I]I{}; c := a; return btoa(a != c) })
+	try("cmp-same-func", func() string { f := func() {}; var a, c interface{} = f, f; return btoa(a == c) })
+	try("cmp-self", func() string { var a interface{} = []I{1}; return btoa(a == a) })
+	try("cmp-struct-same-slice", func() string {
+		type T struct{ x interface{} }
+		s := []I{1}
+		t := T{s}
+		u := t
+		return btoa(t == u)
+	})
+	try("cmp-array-any-same", func() string { s := []I{1}; a := [2]interface{}{s, 1}; b := a; return btoa(a == b) })
+	try("cmp-nan-iface", func() string { z := 0.0; var a interface{} = z / z; c := a; return btoa(a == c) + btoa(a != c) })
 	try("cmp-iface-nil", func() string { var a interface{} = []I{1}; return btoa(a == nil) + btoa(a != nil) })
 	try("cmp-ptrs-to-slices", func() string { a, b := &[]I{1}, &[]I{1}; return cmp(a, b) + cmp(a, a) })
 	// make with bad sizes
